@@ -7,7 +7,9 @@ PAT=${1:-*}
 run_one() {
   N=$1
   P=$(python3 -c "import json;print(json.load(open('/verif/seeded/$N/meta.json'))['property'])")
+  if grep -q neutralised_by_fix /verif/seeded/$N/meta.json; then echo "$N $P neutralised-by-a-later-fix (skipped)"; return; fi
   OUT=$(/verif/tools/muttry.sh $N $P 2>&1 | tail -1)
+  if echo "$OUT" | grep -q "patch failed"; then echo "$N $P PATCH-DOES-NOT-APPLY (rebase it)"; return; fi
   V=missed; echo "$OUT" | grep -q CAUGHT && V=caught
   BY=$(echo "$OUT" | sed -n 's/.*CAUGHT  # \([a-z-]*\):.*/\1/p')
   python3 - "$N" "$P" "$V" "$BY" <<'PY'
